@@ -56,6 +56,79 @@ def agg_of(body, operand):
     return None
 
 
+_CTOR_ANCHORS = r"^terminal::TerminalCommand::visible_cursor_set$"
+
+
+def resolve_val(prog, body, operand, env=None, depth=0):
+    """What an operand is, decided where the value is built: ("const", int) | ("agg", rvalue, body, env) | ("call", term, body, env) | None.
+    Follows whole-value moves; a parameter of an expanded constructor (private fn or local closure that only builds and returns the
+    value: `let off = |mode| DecModeSet{enable: false, mode}`) is looked up in the caller (env: param local -> (body, operand, env));
+    a call to such a constructor is replaced by what its body returns.  Anything that branches or is written twice is not understood."""
+    if operand["k"] == "const":
+        v = op_const_int(operand)
+        return ("const", v) if v is not None else None
+    if operand["k"] not in ("copy", "move") or operand["place"]["p"]:
+        return None
+    l = operand["place"]["l"]
+    seen = set()
+    while l is not None and l not in seen:
+        seen.add(l)
+        if env and l in env:
+            cb, cop, cenv = env[l]
+            return resolve_val(prog, cb, cop, cenv, depth) if cop is not None else None
+        ds = body.defs_of(l)
+        if len(ds) != 1:
+            return None
+        bb, si, rv = ds[0]
+        if si == "term":
+            r = _expand_ctor(prog, body, rv, env, depth)
+            return r if r is not None else ("call", rv, body, env)
+        if rv["k"] == "agg":
+            return ("agg", rv, body, env)
+        if rv["k"] == "use":
+            a = rv["a"]
+            if a["k"] == "const":
+                v = op_const_int(a)
+                return ("const", v) if v is not None else None
+            l = op_local(a)
+            continue
+        return None
+    return None
+
+
+def _expand_ctor(prog, body, t, env, depth):
+    """value returned by a crate-local straight-line constructor call (fn or closure), with its parameters bound to the call's arguments"""
+    if depth >= 4 or t.get("k") != "call":
+        return None
+    nm = callee_name(t)
+    cb = prog.body(nm) if nm else None
+    if cb is None or not cb.file.startswith("src/") or cb.kind not in ("Fn", "AssocFn", "Closure") or cb.impl_trait:
+        return None
+    if re.search(_CTOR_ANCHORS, cb.path):
+        return None       # judged by a rule of its own (shape of the public constructor), stays a call
+    if any(b["term"]["k"] == "switch" for b in cb.blocks if not b["cleanup"]):
+        return None
+    cenv = {}
+    if cb.kind == "Closure":
+        # call(&closure, (a, b, ..)): the body's parameters _2.. are the fields of the argument tuple; captures are not looked into
+        if len(t["args"]) != 2:
+            return None
+        cenv[1] = (body, None, env)
+        tup = resolve_val(prog, body, t["args"][1], env, depth + 1)
+        if cb.arg_count > 1:
+            if not tup or tup[0] != "agg" or tup[1].get("ak") != "tuple" or len(tup[1]["fields"]) != cb.arg_count - 1:
+                return None
+            for k, f in enumerate(tup[1]["fields"]):
+                cenv[2 + k] = (tup[2], f, tup[3])
+    else:
+        if len(t["args"]) != cb.arg_count:
+            return None
+        for k, a in enumerate(t["args"]):
+            cenv[1 + k] = (body, a, env)
+    r = resolve_val(prog, cb, {"k": "move", "place": {"l": 0, "p": []}}, cenv, depth + 1)
+    return r if r and r[0] in ("agg", "const") else None
+
+
 _NEG = {"Eq": "Ne", "Ne": "Eq", "Gt": "Le", "Le": "Gt", "Lt": "Ge", "Ge": "Lt"}
 _SWAP = {"Gt": "Lt", "Lt": "Gt", "Ge": "Le", "Le": "Ge", "Eq": "Eq", "Ne": "Ne"}
 
@@ -376,14 +449,16 @@ def run(ctx):
             else:
                 items = []
                 for f in arr[1]["fields"]:
-                    a = agg_of(dispose, f)
+                    # decided where the command value is built: through moves and through constructor helpers / local closures
+                    a = resolve_val(prog, dispose, f)
                     if a and a[0] == "agg":
-                        rv = a[1]
-                        d = {"variant": rv["variant"]}
-                        if rv["variant"] == "DecModeSet":
-                            d["enable"] = op_const_int(rv["fields"][rv["fnames"].index("enable")])
-                            m = agg_of(dispose, rv["fields"][rv["fnames"].index("mode")])
-                            d["mode"] = m[1]["variant"] if m and m[0] == "agg" else None
+                        rv, ab, ae = a[1], a[2], a[3]
+                        d = {"variant": rv.get("variant")}
+                        if rv.get("variant") == "DecModeSet":
+                            e_ = resolve_val(prog, ab, rv["fields"][rv["fnames"].index("enable")], ae)
+                            d["enable"] = e_[1] if e_ and e_[0] == "const" else None
+                            m = resolve_val(prog, ab, rv["fields"][rv["fnames"].index("mode")], ae)
+                            d["mode"] = m[1].get("variant") if m and m[0] == "agg" else None
                         items.append(d)
                     elif a and a[0] == "call":
                         nm = callee_name(a[1])
